@@ -21,6 +21,12 @@ def region_jobs(tier):
     js.append(Job("region.init_rects.alloc_failure", "C15/region_alloc.c", defines={"VC_CASE": 2}, kind="proof", cbmc_flags=LEAK,
                   functions=["pixman_region32_init_rects", "pixman_rect_alloc", "pixman_break"],
                   domain="2 boxes anywhere in +-10^6, every allocation fails", unwind=4, timeout=600, min_props=2))
+    # (lead) the array allocator itself: create / grow, failure releases what the region owned (seed C15-4)
+    for shape, nm in ((0, "inline"), (1, "empty"), (2, "heap")):
+        js.append(Job("region.rect_alloc.%s" % nm, "C15/rect_alloc.c", defines={"VC_SHAPE": shape, "VC_SIZE": 3},
+                      kind="proof" if shape < 2 else "bounded", bound="" if shape < 2 else "existing array of 3 slots, 0..3 rectangles, growth by 1..4",
+                      cbmc_flags=LEAK, functions=["pixman_rect_alloc", "alloc_data", "pixman_break", "PIXREGION_SZOF"],
+                      domain="region %s, n in 1..4, every failure mask, ghost rectangle with any coordinates" % nm, unwind=6, timeout=600, min_props=4))
     names = ["union(broken,r)", "union(r,broken)", "intersect(broken,r)", "intersect(r,broken)", "inverse(broken)",
              "subtract(r,broken)", "copy(broken)", "union_rect(broken)"]
     for op, nm in enumerate(names):
